@@ -38,7 +38,231 @@ fn observe(s: &GameState, which: usize) -> Vec<String> {
     o
 }
 
+/// Stage D (auxiliary, sampled): free-running native threads on real cores.  A pool of states from deterministic play-outs
+/// (full boards, incl. recurring positions) is expanded sequentially first (reference), then again and again by 12 threads
+/// at once - in every round on FRESH copies of the states (replayed from scratch, so the threads are the first to query
+/// and to extend them) - and every observation must equal the reference.  Catches races that the loom stage cannot see
+/// because the tree does not build under loom (const-initialised statics of atomics, APIs loom does not model).
+fn stress(seconds: u64) -> i32 {
+    use std::sync::{Arc, Barrier};
+    use std::time::{Duration, Instant};
+    // deterministic games: set-up by placements, then the k-th offered action chosen by a linear congruential sequence
+    let openings = ["rrrrrrrrhdcemcdhrrrrrrrrhdcmecdh", "hdcmecdhrrrrrrrrhdcemcdhrrrrrrrr", "rhrdrcremrcrdrhrhrdrcrmrercrdrhr"];
+    let mut scripts: Vec<Vec<Action>> = vec![];
+    for (gi, o) in openings.iter().enumerate() {
+        for game in 0..4u64 {
+            let mut acts: Vec<Action> = o.chars().map(|c| c.to_string().parse::<Action>().unwrap()).collect();
+            let mut s = GameState::initial();
+            for a in acts.iter() {
+                s = s.take_action(a);
+            }
+            let mut x = 0x9E3779B97F4A7C15u64.wrapping_mul(gi as u64 * 7 + game + 1);
+            for _ in 0..160 {
+                if s.is_terminal().is_some() {
+                    break;
+                }
+                let va = s.valid_actions();
+                if va.is_empty() {
+                    break;
+                }
+                x = x.wrapping_mul(6364136223846793005).wrapping_add(1442695040888963407);
+                let a = va[((x >> 33) as usize) % va.len()];
+                acts.push(a);
+                s = s.take_action(&a);
+            }
+            scripts.push(acts);
+        }
+    }
+    // ... and cyclic games: both sides shuffle a horse out and back, the cycle of four turn-start positions is walked twice,
+    // the third entry is attempted (states whose pass / fourth step is withheld as a third repetition)
+    for o in openings.iter().take(2) {
+        let mut acts: Vec<Action> = o.chars().map(|c| c.to_string().parse::<Action>().unwrap()).collect();
+        let mut s = GameState::initial();
+        for a in acts.iter() {
+            s = s.take_action(a);
+        }
+        // find a gold and a silver non-rabbit step that can be taken back (first offered step of a non-rabbit piece)
+        let pick = |s: &GameState| -> Option<(Action, Action)> {
+            for a in s.valid_actions() {
+                if let Action::Move(sq, d) = a {
+                    if s.piece_board().piece_type_at_square(&sq) == Some(Piece::Rabbit) {
+                        continue;
+                    }
+                    let t = s.take_action(&a);
+                    let back_dir = match d {
+                        Direction::Up => Direction::Down,
+                        Direction::Down => Direction::Up,
+                        Direction::Left => Direction::Right,
+                        Direction::Right => Direction::Left,
+                    };
+                    let to = match d {
+                        Direction::Up => sq.index() - 8,
+                        Direction::Down => sq.index() + 8,
+                        Direction::Left => sq.index() - 1,
+                        Direction::Right => sq.index() + 1,
+                    };
+                    let back = Action::Move(Square::from_index(to as u8), back_dir);
+                    if t.valid_actions().contains(&Action::Pass) {
+                        return Some((a, back));
+                    }
+                }
+            }
+            None
+        };
+        if let Some((g_out, g_back)) = pick(&s) {
+            let s1 = s.take_action(&g_out).take_action(&Action::Pass);
+            if let Some((s_out, s_back)) = pick(&s1) {
+                for _lap in 0..2 {
+                    acts.extend([g_out, Action::Pass, s_out, Action::Pass, g_back, Action::Pass, s_back, Action::Pass]);
+                }
+                // third lap as far as it is offered
+                acts.extend([g_out, Action::Pass, s_out, Action::Pass, g_back, Action::Pass, s_back]);
+                // keep only the prefix that is really playable
+                let mut t = GameState::initial();
+                let mut ok = vec![];
+                for a in acts.iter() {
+                    if !t.valid_actions().contains(a) {
+                        break;
+                    }
+                    t = t.take_action(a);
+                    ok.push(*a);
+                }
+                scripts.push(ok);
+            }
+        }
+    }
+    let replay = |acts: &[Action]| -> Vec<GameState> {
+        let mut v = vec![GameState::initial()];
+        for a in acts {
+            let t = v.last().unwrap().take_action(a);
+            v.push(t);
+        }
+        v.split_off(32) // play-phase states only
+    };
+    // light observation (hot loop) and full observation (every offered action applied, in an order rotated by `rot`)
+    type Light = (Vec<Action>, Vec<Action>, Option<Terminal>, bool, u64);
+    let light = |s: &GameState| -> Light { (s.valid_actions(), s.valid_actions_no_rep(), s.is_terminal(), s.can_pass(true), s.transposition_hash()) };
+    let full = |s: &GameState, rot: usize| -> Vec<(usize, u64)> {
+        use std::hash::{Hash, Hasher};
+        let va = s.valid_actions();
+        let n = va.len();
+        let mut out: Vec<(usize, u64)> = (0..n)
+            .map(|j| {
+                let i = (j + rot) % n;
+                let mut h = std::collections::hash_map::DefaultHasher::new();
+                let pv = s.trapped_animal_for_action(&va[i]);
+                let t = s.take_action(&va[i]);
+                let hist: Vec<u64> = t.as_play_phase().map_or(vec![], |p| p.hash_history().iter().map(|z| z.board_state_hash()).collect());
+                format!("{:?}|{:x}|{:?}|{:?}|{}", pv, t.transposition_hash(), t.is_terminal(), hist, t).hash(&mut h);
+                t.valid_actions().hash(&mut h);
+                (i, h.finish())
+            })
+            .collect();
+        out.sort();
+        out
+    };
+    let pools: Vec<Vec<GameState>> = scripts.iter().map(|a| replay(a)).collect();
+    let ref_light: Vec<Vec<Light>> = pools.iter().map(|p| p.iter().map(|s| light(s)).collect()).collect();
+    let ref_full: Vec<Vec<Vec<(usize, u64)>>> = pools.iter().map(|p| p.iter().map(|s| full(s, 0)).collect()).collect();
+    let threads = 12usize;
+    let t0 = Instant::now();
+    let mut rounds = 0u64;
+    let mut checked = 0u64;
+    // ---- phase 1: hot loop over one shared pool of all states (listing actions, result, pass availability, hash) ----
+    {
+        let all: Arc<Vec<GameState>> = Arc::new(pools.iter().flat_map(|p| p.iter().cloned()).collect());
+        let exp: Arc<Vec<Light>> = Arc::new(ref_light.iter().flat_map(|p| p.iter().cloned()).collect());
+        let barrier = Arc::new(Barrier::new(threads));
+        let deadline = t0 + Duration::from_millis(seconds * 500);
+        let mut hs = vec![];
+        for t in 0..threads {
+            let (all, exp, barrier) = (all.clone(), exp.clone(), barrier.clone());
+            hs.push(std::thread::spawn(move || {
+                barrier.wait();
+                let n = all.len();
+                let mut x = 0x2545F4914F6CDD1Du64.wrapping_mul(t as u64 + 1);
+                let mut count = 0u64;
+                while Instant::now() < deadline {
+                    for _ in 0..256 {
+                        x ^= x << 13;
+                        x ^= x >> 7;
+                        x ^= x << 17;
+                        let i = (x as usize) % n;
+                        if light(&all[i]) != exp[i] {
+                            return Err(i);
+                        }
+                        count += 1;
+                    }
+                }
+                Ok(count)
+            }));
+        }
+        for (t, h) in hs.into_iter().enumerate() {
+            match h.join() {
+                Ok(Ok(c)) => checked += c,
+                Ok(Err(i)) => {
+                    eprintln!("MIRIH-STRESS: hot loop, pooled state {} thread {}: concurrent queries differ from sequential queries", i, t);
+                    return 1;
+                }
+                Err(_) => {
+                    eprintln!("MIRIH-STRESS: hot loop, thread {} panicked", t);
+                    return 1;
+                }
+            }
+        }
+    }
+    // ---- phase 2: rounds on FRESH copies (the threads are the first to query and to extend the states) ----
+    while t0.elapsed() < Duration::from_secs(seconds) {
+        for (gi, acts) in scripts.iter().enumerate() {
+            let fresh: Arc<Vec<GameState>> = Arc::new(replay(acts));
+            let barrier = Arc::new(Barrier::new(threads));
+            let mut hs = vec![];
+            for t in 0..threads {
+                let (fresh, barrier) = (fresh.clone(), barrier.clone());
+                let (el, ef) = (ref_light[gi].clone(), ref_full[gi].clone());
+                hs.push(std::thread::spawn(move || {
+                    barrier.wait();
+                    let n = fresh.len();
+                    // all threads walk the states in the same order (so that they meet on the same state), newest first in
+                    // odd rounds; each applies the offered actions in its own rotation (different turn-ending actions at once)
+                    for j in 0..n {
+                        let i = if t % 2 == 0 { n - 1 - j } else { j };
+                        if light(&fresh[i]) != el[i] || full(&fresh[i], t * 3) != ef[i] {
+                            return Some(i);
+                        }
+                    }
+                    None
+                }));
+            }
+            for (t, h) in hs.into_iter().enumerate() {
+                match h.join() {
+                    Ok(None) => {}
+                    Ok(Some(i)) => {
+                        eprintln!("MIRIH-STRESS: game {} state {} thread {}: concurrent expansion differs from sequential expansion", gi, i, t);
+                        return 1;
+                    }
+                    Err(_) => {
+                        eprintln!("MIRIH-STRESS: game {} thread {} panicked during concurrent expansion", gi, t);
+                        return 1;
+                    }
+                }
+            }
+            checked += (fresh.len() * threads) as u64;
+            if t0.elapsed() >= Duration::from_secs(seconds) {
+                break;
+            }
+        }
+        rounds += 1;
+    }
+    println!("mirih stress ok rounds={} state_expansions_compared={}", rounds, checked);
+    0
+}
+
 fn main() {
+    let args: Vec<String> = std::env::args().collect();
+    if args.get(1).map(|s| s.as_str()) == Some("stress") {
+        std::process::exit(stress(args.get(2).and_then(|s| s.parse().ok()).unwrap_or(4)));
+    }
     // same paths as the loom bodies B1 (pushes / pulls / 4th steps on a 5-turn history) and B5 (third repetition)
     let mut b1: Vec<Action> = vec![mv(35, Direction::Left), Action::Pass, mv(28, Direction::Left), Action::Pass, mv(34, Direction::Up), Action::Pass, mv(7, Direction::Down), Action::Pass];
     b1.extend([mv(26, Direction::Left), mv(27, Direction::Left), mv(25, Direction::Up)]);
